@@ -56,7 +56,7 @@ type roMsg struct {
 }
 
 type roStep struct {
-	Name string `json:"name"` // Join | JoinRtsp | Pub | End | PubLeave | PubArrive
+	Name string `json:"name"` // Join | JoinRtsp | DescR | PlayR | Pub | End | PubLeave | PubArrive
 	C    string `json:"c"`
 	M    *roMsg `json:"m"`
 	Ts   uint32 `json:"ts"`
@@ -649,7 +649,12 @@ type roRtspConsumer struct {
 	obs   *roRtspObs
 	url   string
 	buf   []byte
-	state int // 1 = DESCRIBE sent, 2 = playing, 9 = failed
+	state int // 1 = DESCRIBE sent, 3 = described (manual: SETUP / PLAY on request), 2 = playing, 9 = failed
+	// manual: the handshake stops after DESCRIBE is answered and goes on with play() ("PlayR" step), so that a
+	// subscriber can sit between DESCRIBE and PLAY while messages are published
+	manual bool
+	played bool   // PLAY completed since the last take()
+	rawSdp []byte // the session description this subscriber was given
 	cseq  int
 	sdps  []M
 	pend  []string // text responses already taken off the connection
@@ -748,10 +753,21 @@ func (c *roRtspConsumer) advance() {
 		c.fail("describe_not_200")
 		return
 	}
-	raw := []byte(r[k+4:])
-	c.sdps = append(c.sdps, roSdpFacts(c.w, raw))
+	c.rawSdp = []byte(r[k+4:])
+	c.sdps = append(c.sdps, roSdpFacts(c.w, c.rawSdp))
+	c.state = 3
+	if !c.manual {
+		c.play()
+	}
+}
+
+// play sends SETUP (interleaved) for every described track and PLAY.
+func (c *roRtspConsumer) play() {
+	if c.state != 3 {
+		return
+	}
 	ch := 0
-	for _, sm := range proj.ReadSdp(raw) {
+	for _, sm := range proj.ReadSdp(c.rawSdp) {
 		tr := "a"
 		if sm.Media == "video" {
 			tr = "v"
@@ -774,6 +790,7 @@ func (c *roRtspConsumer) advance() {
 		return
 	}
 	c.state = 2
+	c.played = true
 }
 
 func (c *roRtspConsumer) take() M {
@@ -789,7 +806,10 @@ func (c *roRtspConsumer) take() M {
 	if errs == nil {
 		errs = []string{}
 	}
-	return M{"sdp": sd, "frames": roRtpFrames(c.w, pk, &c.hintV, &c.hintA), "panic": strings.Join(errs, ","), "late": true}
+	played := c.played
+	c.played = false
+	return M{"sdp": sd, "frames": roRtpFrames(c.w, pk, &c.hintV, &c.hintA), "panic": strings.Join(errs, ","), "late": true,
+		"played": played}
 }
 
 func (r *roRtpSide) feed(msg base.RtmpMsg) {
@@ -883,7 +903,26 @@ func runRemuxOutScenario(sc *roScenario, tw *TraceWriter, tmp string) {
 		cfg.RtspConfig.OutWaitKeyFrameFlag = true
 	}
 	g := logic.NewGroup("live", stream, cfg, logic.GroupOption{}, groupObserver{})
-	var rg *roRtspConsumer
+	var rg, rh *roRtspConsumer
+	newRtsp := func(name string, manual bool) *roRtspConsumer {
+		roRtspWchan = 0
+		c := &roRtspConsumer{w: w, conn: NewMemConn(name), chTr: map[int]string{}, url: "rtsp://h/live/" + stream, state: 1, manual: manual}
+		c.obs = &roRtspObs{g: g, desc: make(chan struct{}, 4), play: make(chan struct{}, 4)}
+		c.cs = rtsp.NewServerCommandSession(c.obs, c.conn, rtsp.ServerAuthConfig{}, false, "")
+		go c.cs.RunLoop()
+		c.request("DESCRIBE", c.url, "Accept: application/sdp\r\n")
+		if !roWait(c.obs.desc) {
+			c.fail("describe_not_processed")
+		} else if c.obs.imm {
+			// the answer is on its way (written by the command loop right after the callback): take it now, so
+			// that the point at which this subscriber starts does not depend on goroutine scheduling
+			if r, ok := c.response(); ok {
+				c.pend = append(c.pend, r)
+			}
+		}
+		c.advance()
+		return c
+	}
 	tw.Emit(M{"ev": "reset", "sc": sc.Sc, "v": sc.Cfg.V, "a": sc.Cfg.A, "hls": sc.Cfg.Hls, "rtsp": sc.Cfg.Rtsp, "gop": sc.Cfg.Gop,
 		"fragMs": sc.Cfg.FragMs, "rep": sc.Cfg.Rep})
 	var rs *roRtpSide
@@ -912,7 +951,7 @@ func runRemuxOutScenario(sc *roScenario, tw *TraceWriter, tmp string) {
 		return M{"frames": []M{}, "pat": 0, "pmt": 0, "streams": [][2]int{}, "bad": []string{}, "segs": 0, "on": false,
 			"seg": []int{}, "old": 0, "ended": false}
 	}
-	noRtp := func() M { return M{"sdp": []M{}, "frames": []M{}, "panic": "", "late": true} }
+	noRtp := func() M { return M{"sdp": []M{}, "frames": []M{}, "panic": "", "late": true, "played": false} }
 	cons := []*roTsConsumer{}
 	drainAll := func() M {
 		o := M{}
@@ -942,24 +981,44 @@ func runRemuxOutScenario(sc *roScenario, tw *TraceWriter, tmp string) {
 			tw.Emit(M{"ev": "Join", "c": st.C})
 		case "JoinRtsp":
 			if rg == nil && sc.Cfg.Rtsp {
-				roRtspWchan = 0
-				rg = &roRtspConsumer{w: w, conn: NewMemConn("rg"), chTr: map[int]string{}, url: "rtsp://h/live/" + stream, state: 1}
-				rg.obs = &roRtspObs{g: g, desc: make(chan struct{}, 4), play: make(chan struct{}, 4)}
-				rg.cs = rtsp.NewServerCommandSession(rg.obs, rg.conn, rtsp.ServerAuthConfig{}, false, "")
-				go rg.cs.RunLoop()
-				rg.request("DESCRIBE", rg.url, "Accept: application/sdp\r\n")
-				if !roWait(rg.obs.desc) {
-					rg.fail("describe_not_processed")
-				} else if rg.obs.imm {
-					// the answer is on its way (written by the command loop right after the callback): take it now, so
-					// that the point at which this subscriber starts does not depend on goroutine scheduling
-					if r, ok := rg.response(); ok {
-						rg.pend = append(rg.pend, r)
-					}
-				}
-				rg.advance()
+				rg = newRtsp("rg", false)
 			}
-			tw.Emit(M{"ev": "Join", "c": "rg"})
+			ev := M{"ev": "Join", "c": "rg"}
+			if rg != nil && !sc.Cfg.Rep {
+				// a DESCRIBE that found a session description was answered now: it is judged against the stream as it is now
+				ev["rtp"] = M{"rg": rg.take()}
+			}
+			tw.Emit(ev)
+		case "DescR":
+			// a second RTSP subscriber whose DESCRIBE and SETUP / PLAY are separate steps (C02: joins at any instant)
+			if rh == nil && sc.Cfg.Rtsp {
+				rh = newRtsp("rh", true)
+			}
+			ev := M{"ev": "Join", "c": "rh"}
+			if rh != nil && !sc.Cfg.Rep {
+				ev["rtp"] = M{"rh": rh.take()}
+			}
+			tw.Emit(ev)
+		case "PlayR":
+			ev := M{"ev": "Play", "c": "rh", "ok": false}
+			if rh != nil {
+				rh.manual = false // if DESCRIBE is still unanswered, SETUP / PLAY follow as soon as it is
+				rh.advance()
+				rh.play()
+				if sc.Cfg.Rep {
+					// republish epochs: what this subscriber got so far is reported with the next message; it stays
+					// attached when the publisher leaves
+					ev["ok"] = rh.state == 2
+					ev["rtp"] = M{"rh": noRtp()}
+				} else {
+					o := rh.take()
+					ev["ok"] = o["played"]
+					ev["rtp"] = M{"rh": o}
+				}
+			} else {
+				ev["rtp"] = M{"rh": noRtp()}
+			}
+			tw.Emit(ev)
 		case "Pub":
 			m := st.M
 			if m.K == "vsh" && m.Ver > w.maxVer {
@@ -1014,6 +1073,12 @@ func runRemuxOutScenario(sc *roScenario, tw *TraceWriter, tmp string) {
 				} else {
 					rt["rg"] = noRtp()
 				}
+				if rh != nil {
+					rh.advance()
+					rt["rh"] = rh.take()
+				} else {
+					rt["rh"] = noRtp()
+				}
 				ev["rtp"] = rt
 			}
 			tw.Emit(ev)
@@ -1038,6 +1103,12 @@ func runRemuxOutScenario(sc *roScenario, tw *TraceWriter, tmp string) {
 				}
 				rg.conn.Close()
 				rg = nil
+			}
+			rt["rh"] = noRtp()
+			if rh != nil {
+				// the second RTSP subscriber stays attached across the republish
+				rh.advance()
+				rt["rh"] = rh.take()
 			}
 			ev["rtp"] = rt
 			tw.Emit(ev)
@@ -1072,6 +1143,9 @@ func runRemuxOutScenario(sc *roScenario, tw *TraceWriter, tmp string) {
 			if rg != nil {
 				rg.conn.Close()
 			}
+			if rh != nil {
+				rh.conn.Close()
+			}
 			return
 		}
 	}
@@ -1082,11 +1156,13 @@ func runRemuxOutScenario(sc *roScenario, tw *TraceWriter, tmp string) {
 		for _, c := range cons {
 			g.DelHttptsSubSession(c.ss)
 		}
-		if rg != nil {
-			if rg.obs.sub != nil {
-				g.DelRtspSubSession(rg.obs.sub)
+		for _, c := range []*roRtspConsumer{rg, rh} {
+			if c != nil {
+				if c.obs.sub != nil {
+					g.DelRtspSubSession(c.obs.sub)
+				}
+				c.conn.Close()
 			}
-			rg.conn.Close()
 		}
 		os.RemoveAll(hlsRoot)
 	}
